@@ -592,6 +592,18 @@ static std::string do_cmd(const std::vector<Tok> &t) {
     throw std::runtime_error("unknown wb op " + what);
   }
 #endif
+  if (op == "heapshuffle") {
+    // Leave the allocator's small free lists filled in ascending address order: tcache and fast bins hand blocks out last-in
+    // first-out, so the next small allocations of the library come at DESCENDING addresses (a fresh heap grows upwards).
+    // Results of the library must not depend on where its blocks happen to lie.
+    static const size_t sizes[] = {16, 24, 40, 56, 72, 88, 104, 136, 200, 264};
+    std::vector<void *> blocks;
+    int n = t.size() > 1 ? atoi(t[1].s.c_str()) : 64;
+    for (int r = 0; r < n; r++)
+      for (size_t z : sizes) { void *q = malloc(z); if (q) { memset(q, 0x5a, z); blocks.push_back(q); } }
+    for (void *q : blocks) free(q);
+    return "{\"shuffled\":" + jint((long)blocks.size()) + "}";
+  }
   if (op == "registry") return "{\"count\":" + jint(Peek::count()) + "}";
   if (op == "ping") return "{\"pong\":1}";
   throw std::runtime_error("unknown op " + op);
